@@ -883,6 +883,14 @@ Qed.
 
 End Family.
 
+(* long-range influence: whatever the rates depend on, an influence set that is
+   the whole node set covers *)
+Lemma fam_covers_global : forall g m, cm_infl m = 2%N ->
+  influence_covers g (fam_rate g m) (fam_infl g m).
+Proof.
+  intros g m Hi st v s u Hu _. right. unfold fam_infl. rewrite Hi. exact Hu.
+Qed.
+
 (* a concrete instance: threshold contagion (S turns I at rate 3/2 once two
    neighbours are I; I recovers to R at rate 1) on the path 0 - 1 - 2 plus the
    edge 0 - 2 (a triangle), labelled 0,1,2 *)
